@@ -686,4 +686,301 @@ theorem lex_encTail (m : Mode) (hm : m.trailBad = true) (v rest : Cps) (h : scan
     rw [encTail_cons _ _ hs, List.append_assoc, strBody_encChar _ _ hc, ih h]
     simp [Nat.add_comm]
 
+/-! ## URLs -/
+
+def urlPrefix : Cps := [0x75, 0x72, 0x6C, 0x28]
+
+theorem helperUri_eq (v : Cps) :
+    helperUri v = urlPrefix ++ (if forbMatch v then 0x22 :: encTail v else v) ++ [0x29] := by
+  unfold helperUri urlPrefix
+  split <;> simp [helperString_eq]
+
+theorem usub_urlPrefix (X : Cps) : usub (urlPrefix ++ X) = urlPrefix ++ usub X :=
+  usub_plain_append _ _ (by simp [urlPrefix])
+
+theorem midTail_getLast : ∀ v : Cps, (midTail v).getLast? = some 0x22
+  | [] => by simp [midTail]
+  | [c] => by
+    simp only [midTail]
+    split
+    · simp
+    · simp
+  | c :: d :: t => by
+    have ih := midTail_getLast (d :: t)
+    have hne : midTail (d :: t) ≠ [] := by
+      obtain ⟨X, hX⟩ := midTail_head d t; simp [hX]
+    rw [midTail, getLast?_append_ne_nil _ _ hne, ih]
+
+theorem lstrip_head {a : Nat} (t : Cps) (h : isSpaceU a = false) : lstrip (a :: t) = a :: t := by
+  simp [lstrip, h]
+
+theorem strip_of_ends (s : Cps) {a b : Nat} (h1 : s.head? = some a) (ha : isSpaceU a = false)
+    (h2 : s.getLast? = some b) (hb : isSpaceU b = false) : strip s = s := by
+  cases s with
+  | nil => simp at h1
+  | cons x t =>
+    simp at h1; subst h1
+    unfold strip
+    rw [lstrip_head _ ha]
+    have hr : ((x :: t).reverse).head? = some b := by
+      rw [List.head?_reverse]; exact h2
+    cases hrv : (x :: t).reverse with
+    | nil => simp [hrv] at hr
+    | cons y u =>
+      rw [hrv] at hr
+      simp at hr; subst hr
+      rw [lstrip_head _ hb, ← hrv, List.reverse_reverse]
+
+theorem findIdx_urlPrefix (X : Cps) : findIdx 0x28 (urlPrefix ++ X) = some 3 := by
+  simp [urlPrefix, findIdx]
+
+theorem urivalue_wrapped (Y : Cps) (hs : strip Y = Y) : urivalue (urlPrefix ++ Y ++ [0x29]) = unquoteUri Y := by
+  unfold urivalue
+  rw [List.append_assoc, findIdx_urlPrefix]
+  simp only []
+  have : ((urlPrefix ++ (Y ++ [0x29])).dropLast).drop (3 + 1) = Y := by
+    rw [← List.append_assoc, List.dropLast_concat]
+    simp [urlPrefix]
+  rw [this, hs]
+
+theorem uritokenvalue_wrapped (Y : Cps) (hs : strip Y = Y) : uritokenvalue (urlPrefix ++ Y ++ [0x29]) = unquoteUri Y := by
+  unfold uritokenvalue
+  have : ((urlPrefix ++ Y ++ [0x29]).dropLast).drop 4 = Y := by
+    rw [List.dropLast_concat]
+    simp [urlPrefix]
+  rw [this, hs]
+
+/-- quoted form: any of the two URI readers gives the value back -/
+theorem uri_quoted_core (m : Mode) (v : Cps) (h : scan m v = none) :
+    usub (urlPrefix ++ (0x22 :: encTail v) ++ [0x29]) = urlPrefix ++ (0x22 :: midTail v) ++ [0x29] ∧
+    strip (0x22 :: midTail v) = 0x22 :: midTail v ∧ unquoteUri (0x22 :: midTail v) = some v := by
+  have hlast : (0x22 :: midTail v).getLast? = some 0x22 := by
+    obtain ⟨X, hX⟩ : ∃ X, midTail v = X ∧ X ≠ [] := by
+      refine ⟨_, rfl, ?_⟩
+      cases v with
+      | nil => simp [midTail]
+      | cons d t => obtain ⟨X, hX⟩ := midTail_head d t; simp [hX]
+    have := getLast?_append_ne_nil [0x22] (midTail v) (hX.1 ▸ hX.2)
+    simp only [List.cons_append, List.nil_append] at this
+    rw [this, midTail_getLast]
+  refine ⟨?_, ?_, ?_⟩
+  · rw [List.append_assoc, usub_urlPrefix]
+    simp only [List.cons_append]
+    rw [usub_cons_ne _ (by decide), usub_encTail m v [0x29] h, usub_cons_ne _ (by decide)]
+    simp
+  · exact strip_of_ends _ (a := 0x22) (b := 0x22) (by simp) (by decide) hlast (by decide)
+  · unfold unquoteUri
+    simp only [hlast, or_true, and_self, if_true]
+    exact stringvalue_midTail v
+
+theorem forbMatch_false : ∀ v : Cps, forbMatch v = false → ∀ x ∈ v, isForb x = false
+  | [], _ => by simp
+  | c :: t, h => by
+    simp only [forbMatch] at h
+    split at h
+    · simp at h
+    · rename_i hc
+      split at h
+      · rename_i h10; subst h10; simp [isForb, isSpaceU] at hc
+      · intro x hx
+        simp only [List.mem_cons] at hx
+        rcases hx with rfl | hx
+        · simpa using hc
+        · exact forbMatch_false t h x hx
+
+theorem hexTake_append_nonhex {y : Nat} (hy : isHex y = false) : ∀ (n : Nat) (u r : Cps),
+    (u ++ y :: r).take (hexRun n (u ++ y :: r)) = u.take (hexRun n u)
+  | 0, _, _ => by simp [hexRun]
+  | n + 1, [], r => by simp [hexRun, hy]
+  | n + 1, c :: u, r => by
+    simp only [List.cons_append, hexRun]
+    split
+    · simp only [List.take_succ_cons]; rw [hexTake_append_nonhex hy n u r]
+    · simp
+
+theorem usub_unquoted (m : Mode) (v r : Cps) (h : scan m v = none) :
+    usub (v ++ 0x29 :: r) = v ++ 0x29 :: usub r := by
+  have h29 : (0x29:Nat) ≠ 0x5C := by decide
+  have x29 : isHex 0x29 = false := by decide
+  fun_induction scan m v with
+  | case1 => simp [usub_cons_ne _ h29]
+  | case2 => simp [usub_bs_other _ h29 x29]
+  | case3 ht => simp at h
+  | case4 ht => simp [usub_pair, usub_cons_ne _ h29]
+  | case5 e tail hn => simp at h
+  | case6 e tail hn ih =>
+    have h' : scan m (e :: tail) = none := by simpa [hn] using h
+    simp only [List.cons_append] at ih ⊢
+    rw [usub_pair, ih h']
+  | case7 e tail hne hh hnum => simp [hnum] at h
+  | case8 e tail hne hh hnum ih =>
+    have h' : scan m tail = none := by simpa [hnum] using h
+    simp only [List.cons_append]
+    have key : ¬ hexNum ((e :: (tail ++ 0x29 :: r)).take (hexRun 6 (e :: (tail ++ 0x29 :: r)))) ≤ 0x10FFFF := by
+      have := hexTake_append_nonhex x29 6 (e :: tail) r
+      simp only [List.cons_append] at this
+      rw [this]; exact hnum
+    rw [usub_big _ hh key, ih h']
+  | case9 e tail hne hh hnl => simp at h
+  | case10 tail _ _ _ => simp at h
+  | case11 e tail hne hh hnl hdq ih =>
+    have hh' : isHex e = false := by simpa using hh
+    simp only [List.cons_append]
+    rw [usub_bs_other _ hne hh', ih h]
+  | case12 c t hc ih =>
+    simp only [List.cons_append]
+    rw [usub_cons_ne _ hc, ih h]
+
+theorem isForb_of_space {x : Nat} (h : isSpaceU x = true) : isForb x = true := by
+  simp [isForb, h]
+
+theorem strip_no_forb (v : Cps) (hv : ∀ x ∈ v, isForb x = false) : strip v = v := by
+  cases hv' : v with
+  | nil => simp [strip, lstrip]
+  | cons a t =>
+    have hne : v ≠ [] := by simp [hv']
+    have ha : isSpaceU a = false := by
+      cases hs : isSpaceU a with
+      | false => rfl
+      | true => have := hv a (by simp [hv']); rw [isForb_of_space hs] at this; simp at this
+    have hl : v.getLast? = some (v.getLast hne) := List.getLast?_eq_some_getLast hne
+    have hb : isSpaceU (v.getLast hne) = false := by
+      cases hs : isSpaceU (v.getLast hne) with
+      | false => rfl
+      | true => have := hv _ (List.getLast_mem hne); rw [isForb_of_space hs] at this; simp at this
+    rw [← hv']
+    exact strip_of_ends v (by simp [hv']) ha hl hb
+
+theorem unquoteUri_no_forb (v : Cps) (hv : ∀ x ∈ v, isForb x = false) : unquoteUri v = some v := by
+  cases v with
+  | nil => rfl
+  | cons q t =>
+    have hq := hv q (by simp)
+    have h1 : q ≠ 0x27 := by intro e; subst e; simp [isForb] at hq
+    have h2 : q ≠ 0x22 := by intro e; subst e; simp [isForb] at hq
+    simp [unquoteUri, h1, h2]
+
+/-- T3.1 core for URLs: both URI readers (`helper.urivalue` in values, `_uritokenvalue` in @import / @namespace)
+give a safe value back from what `helper.uri` wrote -/
+theorem uriD_uriE_of_class (v : Cps) (h : uriClass v = none) : uriD (uriE v) = some v ∧ uriDTok (uriE v) = some v := by
+  unfold uriClass at h
+  simp only [uriD, uriDTok, uriE, tokValue, helperUri_eq]
+  by_cases hf : forbMatch v = true
+  · simp only [hf, if_true] at h ⊢
+    obtain ⟨e1, e2, e3⟩ := uri_quoted_core .uriQ v h
+    rw [e1, urivalue_wrapped _ e2, uritokenvalue_wrapped _ e2, e3]
+    exact ⟨rfl, rfl⟩
+  · have hf' : forbMatch v = false := by simpa using hf
+    simp only [hf', Bool.false_eq_true, if_false] at h ⊢
+    split at h
+    · have hv := forbMatch_false v hf'
+      have e1 : usub (urlPrefix ++ v ++ [0x29]) = urlPrefix ++ v ++ [0x29] := by
+        rw [List.append_assoc, usub_urlPrefix, usub_unquoted .uriU v [] h]
+        simp
+      rw [e1, urivalue_wrapped _ (strip_no_forb v hv), uritokenvalue_wrapped _ (strip_no_forb v hv),
+        unquoteUri_no_forb v hv]
+      exact ⟨rfl, rfl⟩
+    · simp at h
+
+theorem nonforb_facts {x : Nat} (h : isForb x = false) : x ≠ 0x29 ∧ isTerm x = false ∧ isNl x = false := by
+  simp only [isForb, isSpaceU, Bool.or_eq_false_iff, Bool.and_eq_false_iff, beq_eq_false_iff_ne,
+    decide_eq_false_iff_not] at h
+  refine ⟨by omega, ?_, ?_⟩
+  · simp only [isTerm, Bool.or_eq_false_iff, beq_eq_false_iff_ne]; omega
+  · simp only [isNl, Bool.or_eq_false_iff, beq_eq_false_iff_ne]; omega
+
+theorem wsClose_nonforb {d : Nat} (t : Cps) (h : isForb d = false) : wsClose (d :: t) = none := by
+  obtain ⟨h1, h2, _⟩ := nonforb_facts h
+  simp [wsClose, h1, h2]
+
+theorem urlBody_close (rest : Cps) : urlBody (0x29 :: rest) = some 1 := by
+  cases rest <;> simp [urlBody, isUrlChar, wsClose]
+
+theorem urlBody_unquoted : ∀ (n : Nat) (v : Cps), v.length ≤ n → (∀ x ∈ v, isForb x = false) → ctrlOk false v = true →
+    ∀ rest, urlBody (v ++ 0x29 :: rest) = some (v.length + 1)
+  | _, [], _, _, _, rest => by simpa using urlBody_close rest
+  | _, [c], _, _, hc, rest => by
+    have hu : isUrlChar c = true := by simpa [ctrlOk] using hc
+    simp [urlBody, hu, wsClose, urlBody_close]
+  | 0, c :: d :: v, hl, _, _, _ => by simp at hl
+  | n + 1, c :: d :: v, hl, hv, hc, rest => by
+    have hu : isUrlChar c = true := by
+      simp only [ctrlOk, Bool.or_false, Bool.and_eq_true] at hc; exact hc.1
+    have hd : isForb d = false := hv d (by simp)
+    have hv1 : ∀ x ∈ d :: v, isForb x = false := fun x hx => hv x (List.mem_cons_of_mem _ hx)
+    have hv2 : ∀ x ∈ v, isForb x = false := fun x hx => hv x (by simp [hx])
+    obtain ⟨_, _, hnl⟩ := nonforb_facts hd
+    have hws : wsClose (d :: (v ++ 0x29 :: rest)) = none := wsClose_nonforb _ hd
+    simp only [List.cons_append, urlBody, hu, if_true, hnl, hws]
+    by_cases hesc : c = 0x5C ∧ isUrlChar d = false
+    · obtain ⟨h1, h2⟩ := hesc
+      have hd5 : d ≠ 0x5C := by intro e; subst e; simp [isUrlChar] at h2
+      have hc2 : ctrlOk false v = true := by
+        simp only [ctrlOk, Bool.and_eq_true] at hc
+        have h3 := hc.2.2
+        have hb : (d == 0x5C) = false := by simp [hd5]
+        rw [hb] at h3; exact h3
+      have ih := urlBody_unquoted n v (by simp at hl; omega) hv2 hc2 rest
+      simp [h1, h2, ih]
+    · have hc1 : ctrlOk false (d :: v) = true := by
+        simp only [ctrlOk, Bool.and_eq_true, Bool.or_false, Bool.or_eq_true, beq_iff_eq] at hc ⊢
+        refine ⟨?_, hc.2.2⟩
+        rcases hc.2.1 with h | h
+        · exact h
+        · cases hud : isUrlChar d with
+          | true => rfl
+          | false => exact absurd ⟨h, hud⟩ hesc
+      have ih := urlBody_unquoted n (d :: v) (by simp at hl ⊢; omega) hv1 hc1 rest
+      simp only [List.cons_append] at ih
+      simp only [Bool.not_false, ih]
+      simp
+      intro a b; exact absurd ⟨a, b⟩ hesc
+
+theorem wsClose_close (rest : Cps) : wsClose (0x29 :: rest) = some 1 := by simp [wsClose]
+
+/-- T3.1 for URLs, token level: what `helper.uri` writes for a safe value is one URI token, whatever follows -/
+theorem lexUri_uriE_of_class (v rest : Cps) (h : uriClass v = none) :
+    lexUriPlain (uriE v ++ rest) = some (uriE v).length := by
+  unfold uriClass at h
+  simp only [uriE, helperUri_eq]
+  by_cases hf : forbMatch v = true
+  · simp only [hf, if_true] at h ⊢
+    have hl := lex_encTail .uriQ rfl v (0x29 :: rest) h
+    have e : urlPrefix ++ 0x22 :: encTail v ++ [0x29] ++ rest
+        = 0x75 :: 0x72 :: 0x6C :: 0x28 :: 0x22 :: (encTail v ++ 0x29 :: rest) := by simp [urlPrefix]
+    rw [e]
+    simp only [lexUriPlain, List.take_succ_cons, List.take_zero, if_true, List.drop_succ_cons, List.drop_zero]
+    have tw : List.takeWhile isTerm (0x22 :: (encTail v ++ 0x29 :: rest)) = [] := by simp [List.takeWhile, isTerm]
+    simp only [tw, List.length_nil, List.drop_zero, lexString, true_or, if_true, hl, Option.map_some]
+    have dr : (0x22 :: (encTail v ++ 0x29 :: rest)).drop ((encTail v).length + 1) = 0x29 :: rest := by
+      simp
+    simp only [dr, wsClose_close, Option.map_some]
+    simp [urlPrefix]; omega
+  · have hf' : forbMatch v = false := by simpa using hf
+    simp only [hf', Bool.false_eq_true, if_false] at h ⊢
+    split at h
+    · rename_i hc
+      have hv := forbMatch_false v hf'
+      have hb := urlBody_unquoted v.length v (Nat.le_refl _) hv hc rest
+      have e : urlPrefix ++ v ++ [0x29] ++ rest = 0x75 :: 0x72 :: 0x6C :: 0x28 :: (v ++ 0x29 :: rest) := by simp [urlPrefix]
+      rw [e]
+      simp only [lexUriPlain, List.take_succ_cons, List.take_zero, if_true, List.drop_succ_cons, List.drop_zero]
+      have tw : List.takeWhile isTerm (v ++ 0x29 :: rest) = [] := by
+        cases v with
+        | nil => simp [isTerm]
+        | cons a t =>
+          have := (nonforb_facts (hv a (by simp))).2.1
+          simp [this]
+      have ls : lexString (v ++ 0x29 :: rest) = none := by
+        cases v with
+        | nil => simp [lexString]
+        | cons a t =>
+          have ha := hv a (by simp)
+          have h1 : a ≠ 0x27 := by intro e; subst e; simp [isForb] at ha
+          have h2 : a ≠ 0x22 := by intro e; subst e; simp [isForb] at ha
+          simp [lexString, h1, h2]
+      simp only [tw, List.length_nil, List.drop_zero, ls, hb, Option.map_some]
+      simp [urlPrefix]
+    · simp at h
+
 end CssVerif.StrCodec
